@@ -5,7 +5,7 @@ import Mamba.Basic
 `Set` is `[]int`: `ds[x] < 0` means `x` is a root of rank `-ds[x]-1`; otherwise `ds[x]` is the parent.
 The model follows the Go code statement by statement. Slices become `Array Int`; a Go index
 expression on an out-of-range index becomes `Outcome.panic`; the unbounded `for` loop of `Find`
-takes a fuel argument (theorem `find_terminates` in `Props/C18.lean`: fuel `size` suffices).
+takes a fuel argument (theorem `find_terminates` in `Props/C18.lean`: the fuel `size + 1` used by `find` suffices).
 `Find` and `FindBuffered` run the same statements (the buffer only provides storage for
 `seenNumbers`), so both are modelled by `find`; likewise `Union`/`UnionBuffered` by `union`.
 -/
